@@ -24,11 +24,17 @@ pub fn doc() -> Vec<u8> {
     fb.add(10, 0, &Val::dict(vec![("Type", Val::name("Pages")), ("Parent", Val::r(11)), ("Kids", Val::Array(vec![])), ("Count", Val::Int(0))]));
     fb.add(11, 0, &Val::dict(vec![("Type", Val::name("Pages")), ("Parent", Val::r(10)), ("Kids", Val::Array(vec![])), ("Count", Val::Int(0))]));
     fb.add_objstm(8, &[(5, Val::dict(vec![("In", Val::name("ObjStm"))])), (6, Val::Int(66))], &ObjStmOpts::default());
+    // a chain of 19 page-tree nodes and a page at its end (not reachable from the root): loading the page loads every
+    // ancestor through its eager /Parent reference, i.e. 21 loads nested in each other
+    for n in 100u64..119 {
+        fb.add(n, 0, &Val::dict(vec![("Type", Val::name("Pages")), ("Parent", Val::r(if n == 100 { 2 } else { n - 1 })), ("Kids", Val::Array(vec![])), ("Count", Val::Int(0))]));
+    }
+    fb.add(119, 0, &Val::dict(vec![("Type", Val::name("Page")), ("Parent", Val::r(118))]));
     fb.finish_stream(&[("Root", Val::r(1))], &XrefStreamOpts::new(12));
     fb.bytes()
 }
 
-pub const CALLS: &[&str] = &["get<PagesNode>(3)", "get<PagesNode>(4)", "get<PagesNode>(2)", "get<Font>(9)", "get_page(0)", "resolve(5@objstm)", "get<PagesNode>(10:cyclic)", "get<PagesNode>(11:cyclic)"];
+pub const CALLS: &[&str] = &["get<PagesNode>(3)", "get<PagesNode>(4)", "get<PagesNode>(2)", "get<Font>(9)", "get_page(0)", "resolve(5@objstm)", "get<PagesNode>(10:cyclic)", "get<PagesNode>(11:cyclic)", "get<PagesNode>(119:nested-21-deep)"];
 
 fn ev(e: &pdf::error::PdfError) -> String {
     // peel Try / Shared and also FromPrimitive wrappers: the root cause is what is compared
@@ -71,7 +77,8 @@ where
             Err(e) => ev(&e),
         },
         6 => node(10),
-        _ => node(11),
+        7 => node(11),
+        _ => node(119),
     }
 }
 
@@ -502,6 +509,9 @@ pub fn configs(tier: Tier) -> Vec<(Config, usize)> {
                 v.push((Config { shared_resolver: shared, cached, plan: vec![vec![0, 1, 2], vec![2, 1, 0]] }, 3));
                 v.push((Config { shared_resolver: shared, cached, plan: vec![vec![4, 5, 3], vec![3, 4, 5]] }, 2));
             }
+            // deeply nested loads on both threads (bounds on what the guard stack may hold must be per thread)
+            v.push((Config { shared_resolver: shared, cached, plan: vec![vec![8], vec![8]] }, if tier.thorough() { 2 } else { 1 }));
+            v.push((Config { shared_resolver: shared, cached, plan: vec![vec![8], vec![0]] }, if tier.thorough() { 2 } else { 1 }));
             // the mutually referring pair (sequential answer: an error)
             v.push((Config { shared_resolver: shared, cached, plan: vec![vec![6], vec![7]] }, 2));
             v.push((Config { shared_resolver: shared, cached, plan: vec![vec![6], vec![6]] }, 2));
